@@ -622,7 +622,7 @@ def analyse(program, log, verdict, thread_errors=()):
         if op["name"] != "join" or op["ret"] == INF or not op["out"] or not op["out"].startswith("join:"):
             continue
         to = program["threads"][op["ti"]][op["oi"]][1] if op["oi"] < 1000 else None
-        if to is not None and op["t1"] - op["t0"] > to:
+        if to is not None and op["t1"] - op["t0"] > to + 1.0:  # one virtual second of slack for implementations that poll
             v.append(Violation("C11", "join-timeout", "overrun", "join(%r) took %r virtual seconds" % (to, op["t1"] - op["t0"])))
         if op["out"] != "join:True":
             continue
